@@ -529,6 +529,8 @@ pub(crate) struct LiteralDataFixedGenerator<R: io::Read> {
     /// how many bytes of the header have we written already
     header_written: usize,
     total_len: u32,
+    /// how many bytes of the announced source length have not been read yet
+    source_left: u64,
 }
 
 impl<R: io::Read> LiteralDataFixedGenerator<R> {
@@ -546,6 +548,7 @@ impl<R: io::Read> LiteralDataFixedGenerator<R> {
             source,
             header_written: 0,
             total_len,
+            source_left: source_len.into(),
         })
     }
 
@@ -564,9 +567,29 @@ impl<R: io::Read> io::Read for LiteralDataFixedGenerator<R> {
                 .copy_from_slice(&self.header[self.header_written..self.header_written + to_write]);
             self.header_written += to_write;
             Ok(to_write)
+        } else if self.source_left == 0 {
+            // The packet length has been announced: a source that yields more than that
+            // (a file whose metadata does not match its content) can not be framed.
+            if !buf.is_empty() && self.source.read(&mut [0u8; 1])? > 0 {
+                return Err(io::Error::new(
+                    io::ErrorKind::InvalidData,
+                    "source yields more data than its announced length",
+                ));
+            }
+            Ok(0)
         } else {
-            // write source
-            self.source.read(buf)
+            // write source, at most the announced amount
+            let max = usize::try_from(self.source_left).unwrap_or(usize::MAX);
+            let to_read = buf.len().min(max);
+            let read = self.source.read(&mut buf[..to_read])?;
+            if read == 0 && to_read > 0 {
+                return Err(io::Error::new(
+                    io::ErrorKind::UnexpectedEof,
+                    "source yields less data than its announced length",
+                ));
+            }
+            self.source_left -= read as u64;
+            Ok(read)
         }
     }
 }
